@@ -10,6 +10,7 @@ import json
 
 from .base import EngineBase, exc_class, is_harness_exc
 from ..runner import sig_of
+from .. import seams
 
 TIMEOUTS = [None, 0, 0.0, 1e-4, 0.039, 0.04, 0.041, 0.1, 1, 10, -1, -0.0,
             0.0005, 0.25, 3]
@@ -84,6 +85,14 @@ class VTime(EngineBase):
                         ["is_running", "is_running", "status", "name",
                          "children"])})
                 ops.append({"op": "wait", "timeout": t2})
+            if plan["procs"][0]["kind"] == "child" and rng.random() < 0.2:
+                plan["procs"][0]["popen"] = True
+                ops2 = []
+                for o in ops:
+                    if o["op"] == "wait" and rng.random() < 0.6:
+                        ops2.append({"op": "poll"})
+                    ops2.append(o)
+                ops = ops2
             plan["ops"] = ops
             if rng.random() < 0.3:
                 plan["eintr"].append({"op_id": 0,
@@ -110,6 +119,10 @@ class VTime(EngineBase):
                     "cb": True})
         for j, op in enumerate(plan["ops"]):
             op["id"] = j
+        first_wait = next((o["id"] for o in plan["ops"]
+                           if o["op"] in ("wait", "wait_procs")), 0)
+        for e in plan["eintr"]:
+            e["op_id"] = first_wait
         return plan
 
     # ------------------------------------------------------------------
@@ -118,13 +131,17 @@ class VTime(EngineBase):
         world = dict(plan["world"])
         procs = []
         for s in plan["procs"]:
-            if s["kind"] == "never":
+            if s["kind"] == "never" or s.get("popen"):
                 continue
             procs.append({"pid": s["pid"], "ppid": 1000 if s["kind"] ==
                           "child" else 1, "is_child": s["kind"] == "child",
                           "comm": "w%d" % s["pid"]})
         world["procs"] = procs
         world["max_acc"] = 60000
+        if any(s.get("popen") for s in plan["procs"]):
+            # the simulated fork hands out the lowest free PID
+            world["pid_lo"] = min(s["pid"] for s in plan["procs"]
+                                  if s.get("popen"))
         k = self.make_kernel(W.boot, world)
         self.install(k)
         viol = []
@@ -144,6 +161,15 @@ class VTime(EngineBase):
         for s in plan["procs"]:
             if s["kind"] == "never":
                 k.spawn(pid=s["pid"], ppid=1, comm=b"ghost")
+            if s.get("popen"):
+                # a psutil.Popen: the subprocess side may reap the child
+                # (poll()) before psutil's wait() is asked
+                handles[s["pid"]] = psutil.Popen(["w%d" % s["pid"]])
+                if handles[s["pid"]].pid != s["pid"]:
+                    raise seams.HarnessError("popen pid %r" % (
+                        handles[s["pid"]].pid,))
+                probes["popen_child"] = 1
+                continue
             handles[s["pid"]] = psutil.Process(s["pid"])
             if s["kind"] == "never":
                 k.apply_event({"ev": "vanish", "pid": s["pid"]})
@@ -220,6 +246,19 @@ class VTime(EngineBase):
                         ends[pid] = t + s["reap_lag"]
 
         for idx, op in enumerate(plan["ops"], start=1):
+            if op["op"] == "poll":
+                h_ = handles[plan["procs"][0]["pid"]]
+                k.begin_op(idx)
+                try:
+                    if hasattr(h_, "poll"):
+                        h_.poll()
+                        probes["subprocess_poll"] = probes.get(
+                            "subprocess_poll", 0) + 1
+                except BaseException as e:  # noqa: BLE001
+                    if is_harness_exc(e):
+                        raise
+                k.end_op()
+                continue
             if op["op"] == "poke":
                 k.begin_op(idx)
                 try:
